@@ -7,12 +7,15 @@ From PowHsm Require Import Proofs.C01.
 From PowHsm Require Import Proofs.C17.
 From PowHsm Require Import Gen.Src.
 From PowHsm Require Import Proofs.SrcEquivAdmin.
+From PowHsm Require Import Gen.SrcM.
+From PowHsm Require Import Proofs.SrcEquivDongleM.
+From PowHsm Require Import Proofs.SrcEquivPinM.
 Open Scope N_scope.
 
 (* the text to be signed is RSK_powHSM_signer_<hash>_iteration_<n> *)
 Theorem C17_msg_spec :
   forall (h : str) (n : Z),
-         auth_msg h n = (s "RSK_powHSM_signer_" ++ h ++ s "_iteration_" ++ dec_Z n)%list.
+         auth_msg h n = s "RSK_powHSM_signer_" ++ h ++ s "_iteration_" ++ dec_Z n.
 Proof. exact (@msg_spec). Qed.
 
 (* different signer versions never share a text *)
@@ -26,7 +29,7 @@ Proof. exact (@msg_injective_hex). Qed.
 (* Ethereum personal-message wrapping: 0x19 'Ethereum Signed Message:' newline, decimal length, text *)
 Theorem C17_eth_wrap_spec :
   forall m : str,
-         eth_message m = ([25] ++ s "Ethereum Signed Message:" ++ [10] ++ dec_N (nlen m) ++ m)%list.
+         eth_message m = [25] ++ s "Ethereum Signed Message:" ++ [10] ++ dec_N (nlen m) ++ m.
 Proof. exact (@eth_wrap_spec). Qed.
 
 (* the wrapping is injective *)
@@ -167,14 +170,14 @@ Theorem C17_authorize_run_loaded :
            (0 <= sa_iteration a < 65536)%Z /\
            authorize_run a w = authorize_signer hb (sa_iteration a) bs w /\
            apdus (snd (authorize_run a w)) =
-           (apdus w ++
-            ver_apdu hb (sa_iteration a)
-            :: match next_answer w with
-               | Data _ =>
-                   map sig_apdu
-                     (firstn (Nat.min (S (lead bs (tl (script w)))) (Datatypes.length bs)) bs)
-               | _ => []
-               end)%list /\ fst (authorize_run a w) <> Ok false.
+           apdus w ++
+           ver_apdu hb (sa_iteration a)
+           :: match next_answer w with
+              | Data _ =>
+                  map sig_apdu
+                    (firstn (Nat.min (S (lead bs (tl (script w)))) (Datatypes.length bs)) bs)
+              | _ => []
+              end /\ fst (authorize_run a w) <> Ok false.
 Proof. exact (@authorize_run_loaded). Qed.
 
 (* TIE BY TRANSLATION: SignerVersion.__init__ of admin/signer_authorization.py, as regenerated from the source text on this run, accepts and canonicalises exactly as the model (hash: 32 bytes of hex, stored in canonical form; iteration: int or int()-parsed string within 0..65535), for every pair of JSON values and every behaviour of the int() oracle *)
@@ -237,5 +240,15 @@ Theorem C17_signer_version_hash_ascii :
   forall (pyint : str -> option Z) (hash iteration : json) (h : str) (z : Z),
          signer_version pyint hash iteration = Some (h, z) -> ascii_str h = true.
 Proof. exact (@signer_version_hash_ascii). Qed.
+
+(* TIE BY TRANSLATION (device monad): authorize_signer of ledger/hsm2dongle.py, as regenerated from the source text, is the model's on every world: hash and big-endian iteration first, then the signatures in file order until the device reports the signer authorized, an error when it never does *)
+Theorem C17_source_authorize_signer_is_model :
+  forall (self : pv) (hash_hex : str) (iteration : Z) (sig_hexes : list str) 
+           (hash : bytes) (sigs : list bytes) (w : world),
+         fromhex hash_hex = Some hash ->
+         all_some (map fromhex sig_hexes) = Some sigs ->
+         srcm_HSM2Dongle__authorize_signer self (sauth_obj hash_hex iteration sig_hexes) w =
+         mres VBool (authorize_signer hash iteration sigs w).
+Proof. exact (@srcm_authorize_signer_ok). Qed.
 
 Example C17_nonvacuous : True. Proof. exact I. Qed. (* vm_compute examples in Proofs/C17.v: ex_after_second (3 signatures, success after the 2nd, exactly 3 APDUs), ex_never (4 APDUs, error), ex_msg, ex_eth, ex_roundtrip, ex_refused_iteration *)
